@@ -383,9 +383,14 @@ func genBytes(r *hx.Rng) []byte {
 		off := 84 + 50*t
 		for k := 0; k < 12; k++ {
 			var w uint32
-			switch r.Intn(6) {
+			switch r.Intn(7) {
 			case 0:
 				w = uint32(r.U64()) // arbitrary pattern, NaNs included
+			case 6:
+				// special values: signalling NaN (encoding/binary quiets it: finding F1), quiet NaN with payload,
+				// infinities, subnormal, largest finite
+				w = []uint32{0x7F800001 | uint32(r.Intn(1<<22)), 0xFF800001 | uint32(r.Intn(1<<22)), 0x7FC00000 | uint32(r.Intn(1<<22)),
+					0x7F800000, 0xFF800000, uint32(1 + r.Intn(1<<22)), 0x7F7FFFFF}[r.Intn(7)]
 			case 1:
 				w = 0
 			case 2:
